@@ -26,7 +26,6 @@ from nix_manipulator.expressions.scope import ScopeLayer, ScopeState
 from nix_manipulator.expressions.set import _AttrpathEntry
 from nix_manipulator.parser import parse
 from nix_manipulator.resolution import (
-    attach_resolution_context,
     scopes_for_owner,
     set_resolution_context,
 )
@@ -128,11 +127,8 @@ def _resolve_target_set_from_expr(
             return None
 
     if scope_chain is None:
-        try:
-            scope_chain = scopes_for_owner(target)
-        except ResolutionError:
-            # An unresolvable `with` environment must not block structural edits.
-            scope_chain = ()
+        # An unresolvable `with` environment must not block structural edits.
+        scope_chain = scopes_for_owner(target, strict=False)
 
     match target:
         case Assertion():
@@ -156,13 +152,12 @@ def _resolve_target_set_from_expr(
             except ValueError as exc:
                 raise ValueError("Unexpected function output type") from exc
         case WithStatement():
-            try:
-                body_scopes = scopes_for_owner(target) or scope_chain
-                attach_resolution_context(target.body, owner=target)
-            except ResolutionError:
-                # The environment is opaque (function argument, import, ...):
-                # the body is still the edit target.
-                body_scopes = scope_chain
+            # An opaque environment (function argument, import, ...) contributes
+            # no scope, but the body is still the edit target and keeps the
+            # let layers around the `with`.
+            body_scopes = scopes_for_owner(target, strict=False) or scope_chain
+            if body_scopes:
+                set_resolution_context(target.body, body_scopes)
             return _resolve_target_set_from_expr(
                 target.body,
                 scope_chain=body_scopes,
